@@ -6,6 +6,7 @@ import (
 	"fmt"
 	"net/http"
 	"os"
+	"sort"
 
 	"github.com/crewjam/saml"
 )
@@ -83,6 +84,38 @@ func (s *Server) HandlePutService(w http.ResponseWriter, r *http.Request) {
 
 	service.Metadata = *metadata
 
+	// The name may already be registered with a different entity ID, which must stop
+	// being served once the service is overwritten - unless another stored service
+	// still carries it. Everything that can fail (consulting and changing the store)
+	// happens before the registry is touched, so that a store error leaves registry
+	// and store in step.
+	s.idpConfigMu.Lock()
+	defer s.idpConfigMu.Unlock()
+
+	previous := Service{}
+	previousEntityID := ""
+	switch err := s.Store.Get(fmt.Sprintf("/services/%s", r.PathValue("id")), &previous); err {
+	case nil:
+		if previous.Metadata.EntityID != service.Metadata.EntityID {
+			previousEntityID = previous.Metadata.EntityID
+		}
+	case ErrNotFound:
+		// nop
+	default:
+		s.logger.Printf("ERROR: %s", err)
+		http.Error(w, http.StatusText(http.StatusInternalServerError), http.StatusInternalServerError)
+		return
+	}
+	var previousElsewhere *saml.EntityDescriptor
+	if previousEntityID != "" {
+		previousElsewhere, err = s.storedServiceProvider(previousEntityID, r.PathValue("id"))
+		if err != nil {
+			s.logger.Printf("ERROR: %s", err)
+			http.Error(w, http.StatusText(http.StatusInternalServerError), http.StatusInternalServerError)
+			return
+		}
+	}
+
 	err = s.Store.Put(fmt.Sprintf("/services/%s", r.PathValue("id")), &service)
 	if err != nil {
 		s.logger.Printf("ERROR: %s", err)
@@ -90,17 +123,34 @@ func (s *Server) HandlePutService(w http.ResponseWriter, r *http.Request) {
 		return
 	}
 
-	s.idpConfigMu.Lock()
 	s.serviceProviders[service.Metadata.EntityID] = &service.Metadata
-	s.idpConfigMu.Unlock()
+	if previousEntityID != "" {
+		if previousElsewhere != nil {
+			s.serviceProviders[previousEntityID] = previousElsewhere
+		} else {
+			delete(s.serviceProviders, previousEntityID)
+		}
+	}
 
 	w.WriteHeader(http.StatusNoContent)
 }
 
 // HandleDeleteService handles the `DELETE /services/:id` request.
 func (s *Server) HandleDeleteService(w http.ResponseWriter, r *http.Request) {
+	s.idpConfigMu.Lock()
+	defer s.idpConfigMu.Unlock()
+
 	service := Service{}
 	err := s.Store.Get(fmt.Sprintf("/services/%s", r.PathValue("id")), &service)
+	if err != nil {
+		s.logger.Printf("ERROR: %s", err)
+		http.Error(w, http.StatusText(http.StatusInternalServerError), http.StatusInternalServerError)
+		return
+	}
+
+	// The entity ID stays registered if another stored service still carries it. Find
+	// that out before deleting, so that a store error leaves registry and store in step.
+	elsewhere, err := s.storedServiceProvider(service.Metadata.EntityID, r.PathValue("id"))
 	if err != nil {
 		s.logger.Printf("ERROR: %s", err)
 		http.Error(w, http.StatusText(http.StatusInternalServerError), http.StatusInternalServerError)
@@ -113,11 +163,38 @@ func (s *Server) HandleDeleteService(w http.ResponseWriter, r *http.Request) {
 		return
 	}
 
-	s.idpConfigMu.Lock()
-	delete(s.serviceProviders, service.Metadata.EntityID)
-	s.idpConfigMu.Unlock()
+	if elsewhere != nil {
+		s.serviceProviders[service.Metadata.EntityID] = elsewhere
+	} else {
+		delete(s.serviceProviders, service.Metadata.EntityID)
+	}
 
 	w.WriteHeader(http.StatusNoContent)
+}
+
+// storedServiceProvider returns the metadata of a stored service other than
+// exceptServiceName that carries entityID (the last one in name order, as
+// initializeServices would pick), or nil if there is none.
+func (s *Server) storedServiceProvider(entityID string, exceptServiceName string) (*saml.EntityDescriptor, error) {
+	serviceNames, err := s.Store.List("/services/")
+	if err != nil {
+		return nil, err
+	}
+	sort.Strings(serviceNames)
+	var rv *saml.EntityDescriptor
+	for _, serviceName := range serviceNames {
+		if serviceName == exceptServiceName {
+			continue
+		}
+		service := Service{}
+		if err := s.Store.Get(fmt.Sprintf("/services/%s", serviceName), &service); err != nil {
+			return nil, err
+		}
+		if service.Metadata.EntityID == entityID {
+			rv = &service.Metadata
+		}
+	}
+	return rv, nil
 }
 
 // initializeServices reads all the stored services and initializes the underlying
@@ -127,6 +204,7 @@ func (s *Server) initializeServices() error {
 	if err != nil {
 		return err
 	}
+	sort.Strings(serviceNames) // so that the outcome does not depend on the store's listing order
 	for _, serviceName := range serviceNames {
 		service := Service{}
 		if err := s.Store.Get(fmt.Sprintf("/services/%s", serviceName), &service); err != nil {
